@@ -79,6 +79,16 @@ def job_vary(ses, proto, what, fkind, akind, fkind2=None, akind2=None):
                         steps += [{'op': 'bytes_xor', 'in': '$k_pk', 'index': idx, 'mask': mask, 'out': 'kn%d' % ni},
                                   {'op': 'parse_core', 'proto': proto, 'token': '$T', 'key': '$kn%d' % ni, 'footer': None if fkind2 == 'none' else f2, 'assertion': None if akind2 == 'none' else a2, 'out': 'RN%d' % ni}]
                         alts.append([{'var': 'RN%d' % ni, 'is': 'ok'}, {'var': 'T', 'is': 'ok'}])
+                if what == 'key':
+                    # a comparison that folds the difference into a few bits passes for a small fraction of wrong keys: the empty message (whose "plaintext" under a wrong
+                    # key is still valid text) against every one-byte neighbour of the right key in the first and the last position
+                    m0 = dict(m, message=''); steps.append(build_step(proto, m0, fkind, akind, out='T0'))
+                    for idx in (0, -1):
+                        for mask in range(1, 256):
+                            nm = 'ks%d_%d' % (idx + 1, mask)
+                            steps += [{'op': 'bytes_xor', 'in': '$k_pk', 'index': idx, 'mask': mask, 'out': nm},
+                                      {'op': 'parse_core', 'proto': proto, 'token': '$T0', 'key': '$' + nm, 'footer': None if fkind2 == 'none' else f2, 'assertion': None if akind2 == 'none' else a2, 'out': 'R' + nm}]
+                            alts.append([{'var': 'R' + nm, 'is': 'ok'}, {'var': 'T0', 'is': 'ok'}])
                 ses.violation('%s: the token is accepted although the %s differs' % (tag, what), m, {'steps': steps, 'violated_if': alts})
             v_, _ = ses.ask('%s: acceptance with the matching %s is reachable' % (tag, what), list(sd.pc) + [Not(differs)], 'sat')
             wit_ok = wit_ok or v_ == 'sat'
